@@ -360,40 +360,35 @@ Example C02_listing_limit_nonvacuous :
   = [22; 22; 22; 22; 22; 22; 400; 22; 400; 400; 400; 400; 400].
 Proof. vm_compute. reflexivity. Qed.
 
-(* The numbers an HTML listing announces ("N directories, M files").  The statement one wants —
-   they count what the listing lists — is FALSE of the code: directoryListing counts every entry
-   BEFORE the IsHidden test, so a listing discloses how many hidden entries its directory has
-   (finding F-C02-6; witness: the fixture's root announces 16 files and lists 14). *)
-Theorem C02_listing_counts_refuted :
-  exists fs hide pages confs req kids,
-  browse fs hide pages [SLASH] confs 0 req [] [] [] = Listing kids /\
-  announced_counts fs (jail req) <> (count_kind true kids, count_kind false kids).
-Proof.
-  exists fixture_fs, gen_c02_hide, gen_default_index_pages, [{| b_scope := [SLASH]; b_types := [] |}], [SLASH].
-  eexists. split; [vm_compute; reflexivity|]. vm_compute. discriminate.
-Qed.
-Print Assumptions C02_listing_counts_refuted.
-
-(* what holds: a listing never announces fewer entries than it lists, and exactly as many when no
-   entry of the directory is hidden *)
-Theorem C02_listing_counts_partial :
+(* The numbers an HTML listing announces ("N directories, M files") count what the listing lists:
+   the directories and the files among its entries — the non-hidden children of the cleaned
+   directory — and nothing else, so a listing does not disclose how many hidden entries its
+   directory has.  Together they are the number of entries, and they are the numbers the executable
+   property asks for ([counts_ok], evaluated on every observed HTML listing).  (directoryListing
+   used to count BEFORE the IsHidden test: finding F-C02-6, repaired; its witnesses are replayed on
+   the real server on every run, corpus/C02/listing_counts_hidden_children.json.) *)
+Theorem C02_listing_counts :
   forall fs hide pages prefix confs m req ae archive limit kids,
   browse fs hide pages prefix confs m req ae archive limit = Listing kids ->
-  count_kind true kids <= fst (announced_counts fs (jail req)) /\
-  count_kind false kids <= snd (announced_counts fs (jail req)) /\
-  ((forall k, In k (children fs (jail req)) -> is_hidden fs hide k = false) ->
-   announced_counts fs (jail req) = (count_kind true kids, count_kind false kids)).
-Proof. exact listing_counts_partial. Qed.
-Print Assumptions C02_listing_counts_partial.
+  announced_counts fs hide (jail req) = (count_kind true kids, count_kind false kids) /\
+  count_kind true kids + count_kind false kids = N.of_nat (length kids) /\
+  counts_ok [fst (announced_counts fs hide (jail req)); snd (announced_counts fs hide (jail req))]
+            (filter (fun k => negb (hidden_id fs hide (n_id k))) (children fs (jail req))) = true.
+Proof. exact listing_counts. Qed.
+Print Assumptions C02_listing_counts.
 
+(* the fixture's root has 10 directories and 16 files, one directory and three files of them hidden
+   (the origin Casketfile; `internal` /hdir, /hsib.txt.gz, /secret.txt): its listing announces 9 and 13 and
+   lists 22 entries (before the repair it announced 10 and 16); /dir has nothing hidden *)
 Example C02_listing_counts_nonvacuous :
-  announced_counts fixture_fs [SLASH] = (10, 16) /\
-  announced_counts fixture_fs (bs "/dir") = (2, 3) /\
-  (forall k, In k (children fixture_fs (bs "/dir")) -> is_hidden fixture_fs gen_c02_hide k = false).
-Proof.
-  split; [vm_compute; reflexivity|]. split; [vm_compute; reflexivity|].
-  intros k Hk. vm_compute in Hk. repeat (destruct Hk as [<-|Hk]; [vm_compute; reflexivity|]). destruct Hk.
-Qed.
+  match browse fixture_fs gen_c02_hide gen_default_index_pages [SLASH] [{| b_scope := [SLASH]; b_types := [] |}]
+               0 [SLASH] [] [] [] with
+  | Listing kids => N.of_nat (length kids) | _ => 0 end = 22 /\
+  (count_kind true (children fixture_fs [SLASH]), count_kind false (children fixture_fs [SLASH])) = (10, 16) /\
+  announced_counts fixture_fs gen_c02_hide [SLASH] = (9, 13) /\
+  announced_counts fixture_fs gen_c02_hide (bs "/dir") = (2, 3) /\
+  announced_counts fixture_fs [] [SLASH] = (10, 16).
+Proof. vm_compute. repeat split; reflexivity. Qed.
 
 (* ---- HEAD ----------------------------------------------------------------------------------- *)
 (* A HEAD request is answered as the GET request for the same target, query and headers would be:
